@@ -181,45 +181,6 @@ EXTENDERS = ("c", "cds(b or c)", "cds(b and not c)")
 
 
 # ----------------------------------------------------------------------------------------------
-#  the oracle for one rule
-# ----------------------------------------------------------------------------------------------
-
-class Expected:
-    """ what the statement demands for one rule on one record (before superiors) """
-    def __init__(self) -> None:
-        self.anchors: Set[int] = set()
-        self.groups: List[List[int]] = []
-        self.cores: List[List[Tuple[int, int]]] = []    # per group: every admissible smallest span
-        self.largest_gap_tie: List[bool] = []
-
-
-def expect_rule(case: Dict[str, Any], rule: Dict[str, Any]) -> Expected:
-    """ anchoring genes, maximal cutoff chains and their smallest covering spans """
-    length, circular = case["L"], bool(case["circ"])
-    bases = [gene_bases(g, length) for g in case["genes"]]
-    cutoff = rule["cut"]
-    dist: Dict[Tuple[int, int], int] = {}
-
-    def near(i: int, j: int) -> bool:
-        key = (min(i, j), max(i, j))
-        if key not in dist:
-            dist[key] = set_distance(bases[i], bases[j], length, circular)
-        return dist[key] < cutoff
-
-    exp = Expected()
-    exp.anchors = anchors_of(rule["cond"], case["hits"], near)
-    exp.groups = components(sorted(exp.anchors), near)
-    for group in exp.groups:
-        union: Set[int] = set()
-        for i in group:
-            union |= bases[i]
-        spans = smallest_spans(union, length, circular)
-        exp.cores.append(spans)
-        exp.largest_gap_tie.append(len(spans) > 1)
-    return exp
-
-
-# ----------------------------------------------------------------------------------------------
 #  bridge to the real code
 # ----------------------------------------------------------------------------------------------
 
